@@ -13,12 +13,12 @@ vars == <<pc, key, out>>
 DX == 2
 Doms(nd) == IF nd = 3 THEN {<<>>, <<0, 1, 4>>, <<2, 3, 5>>} ELSE {<<>>, <<0, 2, 3, 7>>}
 Steps == {<<1, 1>>, <<1, 2>>}
-FVals == IF Tier = "quick" THEN {0, 2} ELSE {0, 1, 2}
+FVals == {0, 2}
 FPoolAll(d, nd) == {F \in [1..d -> [1..nd -> FVals]] : \A i \in 1..d : \E k \in 1..nd : F[i][k] # 0}
 FPoolPicked(d, nd) == { [i \in 1..d |-> [m \in 1..nd |-> IF m = i THEN 2 ELSE IF m = i + 1 THEN 1 ELSE 0]],
                         [i \in 1..d |-> [m \in 1..nd |-> ((i * m) % 3)]],
                         [i \in 1..d |-> [m \in 1..nd |-> IF (i + m) % 2 = 0 THEN 2 ELSE 1]] }
-FPool(d, nd) == IF Tier = "quick" THEN FPoolPicked(d, nd) ELSE FPoolAll(d, nd)
+FPool(d, nd) == IF Tier = "quick" \/ d * nd > 6 THEN FPoolPicked(d, nd) ELSE FPoolAll(d, nd)   \* exhaustive only for 2 x 3 filters
 SPool(n, nd) == { [k \in 1..n |-> [m \in 1..nd |-> ((k + m) % 3) + (IF m = k THEN 2 ELSE 0)]],
                   [k \in 1..n |-> [m \in 1..nd |-> IF (m + k) % 2 = 0 THEN 3 ELSE 1]] }
 XPool(n) == { [j \in 1..n |-> j], [j \in 1..n |-> IF j = 1 THEN 0 ELSE 3], [j \in 1..n |-> 2] }   \* units 1/2
